@@ -852,7 +852,10 @@ class SparseArray:
                     rows = [rows[i] for i in default_range(m, len(rows))]
                     if n.__class__ is slice:
                         if n == open_slice:
-                            for i in rows: i[:] = value
+                            if vd == 2:
+                                for i, j in strict_zip(rows, value): i[:] = j
+                            else:
+                                for i in rows: i[:] = value
                             return
                         else:
                             n = default_range(n, self.vector_size)
@@ -1696,6 +1699,10 @@ class SparseVector:
                 if value is self: return
                 if vd == 1 and len(value) > self.size:
                     raise ValueError('shape mismatch between arrays')
+                if vd > 1:
+                    raise IndexError(
+                        f'cannot broadcast {vd}-d array on to 1-d sparse array'
+                    )
                 dct.clear()
                 if value.__class__ is SparseVector:
                     dct.update(value.dct)
@@ -2735,6 +2742,10 @@ class SparseLogicalVector:
         elif index.__class__ is slice:
             if index == open_slice:
                 if value is self: return
+                if vd > 1:
+                    raise IndexError(
+                        f'cannot broadcast {vd}-d array on to 1-d sparse array'
+                    )
                 set.clear()
                 if vd == 0:
                     if value:
